@@ -54,6 +54,9 @@ func findDecl(p *packages.Package, name string) *ast.FuncDecl {
 func rulesFileDelegation(c *Ctx, r *Report) {
 	n := 0
 	for _, sp := range fileSpecs {
+		if !inScopeRel(sp.rel) {
+			continue
+		}
 		p := c.pkg(sp.rel)
 		where := sp.rel + "." + sp.file
 		if p == nil {
@@ -228,7 +231,7 @@ func rulesFileDelegation(c *Ctx, r *Report) {
 			"every iteration hands exactly the (item, error) pair of the inner iterator to the consumer",
 			fmt.Sprintf("the loop body does not pass every (item, error) pair through unchanged (yield calls: %d, arguments are the range variables: %v, an iteration can skip the yield: %v): File and %s disagree on some inputs", nY, okY, skip, sp.reader))
 	}
-	r.floor("FD", n, 6, "File functions (fasta, fastq, sam.File, sam.FileHeader, bed, newick)")
+	r.floor("FD", n, scopedFloor(6, 1), "File functions (fasta, fastq, sam.File, sam.FileHeader, bed, newick)")
 }
 
 func identObj(info *types.Info, e ast.Expr) types.Object {
@@ -493,7 +496,7 @@ func rulesReaderEntry(c *Ctx, r *Report) {
 			}
 		})
 	}
-	r.floor("A6", n, 8, "io.Reader entries (6 Reader/newReader functions) and 6 opened streams")
+	r.floor("A6", n, scopedFloor(8, 2), "io.Reader entries (6 Reader/newReader functions) and 6 opened streams")
 	reads, buffered := detectDirectReads(c, funcs)
 	pos := ""
 	if len(reads) > 0 {
